@@ -52,6 +52,9 @@ Definition isin (S : snap) (u : uri) : bool := match sfiles S u with Some _ => t
 
 Section Sys.
   Variable disk : uri -> option text.
+  (** does [sync_open_file] bump [open_file_state_version] on EVERY call (true: what the version loop needs),
+      or only when the uri was not open before (false)?  Read off the source on every run: Gen/C29_Sync.v *)
+  Variable always : bool.
 
   Definition view (f : uri -> option text) (u : uri) : option text :=
     match f u with Some t => Some t | None => disk u end.
@@ -63,7 +66,9 @@ Section Sys.
 
   Definition sect1 (n : notif) (s : st) : st :=
     match n with
-    | NSet u t => mkSt (upd (wopen s) u (Some t)) (S (ver s)) (an s) (tl (queue s)) (Some n) (pend s) (rs s)
+    | NSet u t => mkSt (upd (wopen s) u (Some t))
+                       (if always || (match wopen s u with None => true | Some _ => false end) then S (ver s) else ver s)
+                       (an s) (tl (queue s)) (Some n) (pend s) (rs s)
     | NClose u => mkSt (upd (wopen s) u None) (S (ver s)) (an s) (tl (queue s)) (Some n) (pend s) (rs s)
     end.
 
